@@ -609,7 +609,8 @@ func propC20(c *Ctx) {
 			}
 		}
 	})
-	okRestart := closeCall != nil && goRun != nil && sreg.Dominates(closeCall, goRun)
+	sconst := sreg.ConstCuts() // tm.stopChan(true): the `if renew` inside is decided at this call
+	okRestart := closeCall != nil && goRun != nil && sreg.DominatesUnder(closeCall, goRun, sconst)
 	okRet := false
 	for _, r := range returnsOf(rs) {
 		if u, ok := returnValues(r)[0].(*ssa.UnOp); ok && u.Op == token.ARROW && u.X == ecArg {
@@ -646,7 +647,18 @@ func propC20(c *Ctx) {
 				case *ssa.MakeChan:
 					fresh = x
 				case *ssa.UnOp:
-					if isLoadOfField(x, fRestart) && len(stores) == 1 && stores[0].Parent() == x.Parent() && dominatesInstr(stores[0], x) {
+					domSt := len(stores) == 1 && stores[0].Parent() == x.Parent() && dominatesInstr(stores[0], x)
+					if !domSt && len(stores) == 1 && stores[0].Parent() == x.Parent() {
+						// … under the constant argument of this call
+						c2 := newCuts().addInstr(stores[0])
+						for e := range sconst.Edges {
+							c2.Edges[e] = true
+						}
+						if hit, _ := reach(entrySite(x.Parent()), isInstr(x), c2); !hit {
+							domSt = true
+						}
+					}
+					if isLoadOfField(x, fRestart) && domSt {
 						if freshToken(stores[0].Val) && sameBase(stores[0].Addr, x.X) {
 							fresh = stores[0].Val
 						}
@@ -666,7 +678,7 @@ func propC20(c *Ctx) {
 			if lv := sreg.Leaves(st.Val); !same && len(lv) == 1 && lv[0] == fresh {
 				same = true
 			}
-			if fresh != nil && same && closeCall != nil && sreg.Dominates(closeCall, st) && sreg.Dominates(st, goRun) {
+			if fresh != nil && same && closeCall != nil && sreg.DominatesUnder(closeCall, st, sconst) && sreg.DominatesUnder(st, goRun, sconst) {
 				installed = true
 				installedBy = st
 			}
